@@ -861,12 +861,14 @@ func ruleOpt(c *Ctx) {
 			if !ok1 || fld == "" || len(cellL.chain) != 0 {
 				continue
 			}
-			// guarded by instance.F != nil
+			// guarded by instance.F != nil and by nothing else (a further test, e.g. `not on a rest`, drops the setting)
 			guarded := false
+			extra := false
 			for _, g := range guardsAlong(rc.li(), 0) {
 				gl := tr.trace(g.cond)
 				b, ok := gl.v.(*ssa.BinOp)
 				if !ok || (b.Op != token.NEQ && b.Op != token.EQL) {
+					extra = true
 					continue
 				}
 				x, y := tr.trace(gl.with(b.X)), tr.trace(gl.with(b.Y))
@@ -878,9 +880,11 @@ func ruleOpt(c *Ctx) {
 				}
 				if n, _, ok := loadedField(x.v); ok && n == fld && len(x.chain) == 0 && g.want == (b.Op == token.NEQ) {
 					guarded = true
+				} else {
+					extra = true
 				}
 			}
-			if guarded {
+			if guarded && !extra {
 				updates[fld] = cell
 			}
 		}
